@@ -9,6 +9,9 @@ Findings on the unchanged tree (FAMILIES below are the fallback keys, matched on
        orders is false (no small fix: packing order)   key qexpr-object-equality-named-order-on-stored-encoding
   new  < <= > >= with object operands on stored encodings compare bytes, not list members
        (no small fix)                                              key qexpr-object-order-on-stored-encoding
+  new  t extend z = 1 / a fails the same way (Unary.Eval has no case for the folder's 1 / x node); fix: commit
+  new  (thorough) t extend xd = d where xd or true returns every row although d is not a boolean
+       (replaceExpr drops the operands before a short-circuit constant); fix: commit      key qexpr-transform-shortcut
 
 Mutation testing (scratch worktree on top of the fix commits, quick tier, seed 1, the two object families
 assumed recorded; "tests" = go test -short ./compile/ast/ ./dbms/query/ (./core/) with the mutant):
@@ -39,6 +42,7 @@ FAMILIES = {
     "qexpr-object-equality-named-order-on-stored-encoding": "is / isnt / in on stored encodings of objects with several named members depends on their insertion order",
     "qexpr-const-div-field-assert": "constant / field in a query expression fails with ASSERT FAILED: should not reach here",
     "qexpr-or-with-empty-alternative-selects-nothing": "where x < \"\" or <other condition on x> selects nothing",
+    "qexpr-transform-shortcut": "where over extend/rename: <operand> or true / <operand> and false is replaced by the constant although the operand is still evaluated (and type checked) in the plain where",
 }
 
 
@@ -78,17 +82,20 @@ def classify(ev, rows):
             cols = [ev["col"][i - 1] for i in subtree_leaves(x, []) if ev["col"][i - 1] != 0]
             if len(cols) != len(set(cols)):
                 fams.add("qexpr-or-with-empty-alternative-selects-nothing")
+        if x["op"] in ("and", "or") and any(v.get("t") == "bool" and v["b"] == (x["op"] == "or")
+                                            for i in subtree_leaves(x, []) if ev["col"][i - 1] == 0 for v in leaf_values(i)):
+            fams.add("qexpr-transform-shortcut")
     walk(ev["x"])
     return fams
 
 
-def bad_lines(res):
-    out = res.get("out", "")
-    m = re.search(r'"BAD-LINES",\s*<<(.*?)>>', out, re.S)
-    if m:
-        return sorted(set(int(n) for n in re.findall(r"\d+", m.group(1))))
-    head = out.split("TRACE-ACCEPTED")[0]
-    return sorted(set(int(n) for n in re.findall(r"(?m)^\s*(\d+)\s*,?\s*(?:>> >>)?\s*$", head)))
+def bad_lines(path):
+    """line numbers the survey run wrote (JSON array, TLA+ JsonSerialize)"""
+    try:
+        v = json.load(open(path))
+    except Exception:
+        return None
+    return sorted(set(int(n) for n in v))
 
 
 def run(ctx):
@@ -113,16 +120,22 @@ def run(ctx):
     rows = json.loads(lines[0])["rows"]
     if not res["accepted"]:
         saved = {k: ctx.cov.get(k) for k in ("events_validated", "traces_validated_against_impl", "trace_validation_states")}
-        sv = ctx.tlc_trace("TraceQExpr.tla", "TraceQExpr.cfg", trace, timeout=3000, extra_env={"VERIF_SURVEY": "1"})
+        badout = os.path.join(ctx.work, "bad-lines.json")
+        sv = ctx.tlc_trace("TraceQExpr.tla", "TraceQExpr.cfg", trace, timeout=3000, extra_env={"VERIF_SURVEY": "1", "VERIF_BADOUT": badout})
         for k, v in saved.items():
             if v is not None:
                 ctx.cov[k] = v
-        bad = bad_lines(sv) or [res["line"]]
+        bad = bad_lines(badout)
+        if bad is None or not sv["accepted"]:
+            raise Infra("survey run did not produce the list of rejected lines: %s" % (sv.get("out", "")[-1500:],))
+        if res["line"] not in bad:
+            raise Infra("survey run disagrees with the strict run: line %d rejected but not listed in %s" % (res["line"], bad[:20]))
         unknown, known = [], {}
         # testing aid (mutation runs): treat these families as recorded findings
         assume = set(filter(None, os.environ.get("VERIF_ASSUME_KNOWN", "").split(",")))
         for ln in bad:
             ev = json.loads(lines[ln - 1])
+            rows = json.loads(lines[max(i for i in range(ln) if lines[i].startswith('{"e":"Rows"'))])["rows"]
             fams = classify(ev, rows)
             kf = [f for f in fams if ctx.is_known(f) is not None or f in assume]
             if kf:
@@ -144,8 +157,12 @@ def run(ctx):
         if unknown:
             rep = os.path.join(ctx.work, "qexpr-rejected.ndjson")
             with open(rep, "w") as f:
-                f.write(lines[0] + "\n")
+                last = None
                 for ln, ev, fams in unknown:
+                    rl = max(i for i in range(ln) if lines[i].startswith('{"e":"Rows"'))   # the rows of its scenario
+                    if rl != last:
+                        f.write(('{"e":"Reset"}\n' if last is not None else "") + lines[rl] + "\n")
+                        last = rl
                     f.write(lines[ln - 1] + "\n")
             ln, ev, fams = unknown[0]
 
@@ -164,7 +181,8 @@ def run(ctx):
     ev["keys"] = ev["keys"][1:]
     bad = os.path.join(ctx.work, "qexpr-corrupt.ndjson")
     with open(bad, "w") as f:
-        f.write(lines[0] + "\n" + json.dumps(ev, separators=(",", ":")) + "\n")
+        rl = max(i for i in range(n) if lines[i].startswith('{"e":"Rows"'))
+        f.write(lines[rl] + "\n" + json.dumps(ev, separators=(",", ":")) + "\n")
     saved = {k: ctx.cov.get(k) for k in ("trace_validation_states",)}
     resc = ctx.tlc_trace("TraceQExpr.tla", "TraceQExpr.cfg", bad, timeout=1200)
     if resc["accepted"] or resc.get("line") != 2:
